@@ -593,3 +593,159 @@ class resolve_date_order:
 
 
 CONTRACTS += [numeric_order, resolve_date_order]
+
+
+# ---------------------------------------------------------------------------------------------------
+# C01: standard absolute formats round-trip (kernel on the canonical strings of the English front end)
+
+def _frac_us(f, n):
+    """value of an n-digit fraction in microseconds"""
+    return f * (10 ** (6 - n))
+
+
+class absolute_formats:
+    """C01 kernel: ISO-8601 / RFC-2822 / English month forms, as handed to the absolute parser by the
+    English front end (canonical lower-case words; see the front-end stand-in), parse to exactly the
+    written datetime for every digit value; preferences and the reference time are irrelevant."""
+
+    name = "parser._parser.parse/absolute-formats"
+    func = "dateparser.parser._parser.parse"
+    props = ["C01"]
+
+    FORMS = {
+        # name: template (fields: Y m D H T S f; W = weekday word, B = month word)
+        "iso-date": [("Y", 4), "-", ("m", 2), "-", ("D", 2)],
+        "iso-hm": [("Y", 4), "-", ("m", 2), "-", ("D", 2), " ", ("H", 2), ":", ("T", 2)],
+        "iso-hms": [("Y", 4), "-", ("m", 2), "-", ("D", 2), " ", ("H", 2), ":", ("T", 2), ":",
+                    ("S", 2)],
+        "iso-hms-f": [("Y", 4), "-", ("m", 2), "-", ("D", 2), " ", ("H", 2), ":", ("T", 2), ":",
+                      ("S", 2), ".", "F"],
+        "iso-hms-tzgap": [("Y", 4), "-", ("m", 2), "-", ("D", 2), " ", ("H", 2), ":", ("T", 2), ":",
+                          ("S", 2), " "],
+        "rfc2822": ["W", " ", ("D", 2), " ", "B", " ", ("Y", 4), " ", ("H", 2), ":", ("T", 2), ":",
+                    ("S", 2)],
+        "rfc2822-tzgap": ["W", " ", ("D", 2), " ", "B", " ", ("Y", 4), " ", ("H", 2), ":", ("T", 2),
+                          ":", ("S", 2), " "],
+        "month-d-y": ["B", " ", ("D", "n"), " ", ("Y", 4)],
+        "d-month-y": [("D", "n"), " ", "B", " ", ("Y", 4)],
+        "w-month-d-y": ["W", " ", "B", " ", ("D", "n"), " ", ("Y", 4)],
+        "w-d-month-y": ["W", " ", ("D", "n"), " ", "B", " ", ("Y", 4)],
+        "month-d-y-hm": ["B", " ", ("D", "n"), " ", ("Y", 4), " ", ("H", 2), ":", ("T", 2)],
+        "month-d-y-hms": ["B", " ", ("D", "n"), " ", ("Y", 4), " ", ("H", 2), ":", ("T", 2), ":",
+                          ("S", 2)],
+        "d-month-y-hms-f": [("D", "n"), " ", "B", " ", ("Y", 4), " ", ("H", 2), ":", ("T", 2), ":",
+                            ("S", 2), ".", "F"],
+        "month-d-y-12h": ["B", " ", ("D", "n"), " ", ("Y", 4), " ", ("I", "h"), ":", ("T", 2), " ",
+                          "P"],
+        "ctime": ["W", " ", "B", " ", ("D", "n"), " ", ("H", 2), ":", ("T", 2), ":", ("S", 2), " ",
+                  ("Y", 4)],
+    }
+
+    @classmethod
+    def cases(cls, thorough=False):
+        out = []
+        months = (MONTHS if thorough else ["february", "november"])
+        wdays = (DAYS if thorough else ["tuesday"])
+        for form, tpl in cls.FORMS.items():
+            has_b = "B" in tpl
+            has_w = "W" in tpl
+            has_f = "F" in tpl
+            has_n = any(isinstance(p, tuple) and p[1] == "n" for p in tpl)
+            has_p = "P" in tpl
+            for mo in (months if has_b else [None]):
+                for wd in (wdays if has_w else [None]):
+                    for fd in ((range(1, 7) if thorough else (1, 3, 6)) if has_f else [None]):
+                        for nd in ((1, 2) if has_n else [None]):
+                            for ap in (("am", "pm") if has_p else [None]):
+                                for hd in ((1, 2) if has_p else [None]):
+                                    c = dict(form=form)
+                                    if mo:
+                                        c["month"] = mo
+                                    if wd:
+                                        c["weekday"] = wd
+                                    if fd:
+                                        c["fdigits"] = fd
+                                    if nd:
+                                        c["daydigits"] = nd
+                                    if ap:
+                                        c["ampm"] = ap
+                                        c["hdigits"] = hd
+                                    out.append(c)
+        # preferences are irrelevant to complete dates: all 27 combinations on two representative forms
+        for pd in PREFS:
+            for pm in PREFS:
+                for pf in FROM:
+                    if (pd, pm, pf) == ("current", "current", "current_period"):
+                        continue
+                    for form in ("iso-hm", "rfc2822"):
+                        c = dict(form=form, PREFER_DAY_OF_MONTH=pd, PREFER_MONTH_OF_YEAR=pm,
+                                 PREFER_DATES_FROM=pf)
+                        if form == "rfc2822":
+                            c.update(month="february", weekday="tuesday")
+                        out.append(c)
+        return out
+
+    @classmethod
+    def template(cls, case):
+        tpl = []
+        for p in cls.FORMS[case["form"]]:
+            if p == "B":
+                tpl.append(case["month"])
+            elif p == "W":
+                tpl.append(case["weekday"])
+            elif p == "F":
+                tpl.append(("f", case["fdigits"]))
+            elif p == "P":
+                tpl.append(case["ampm"])
+            elif isinstance(p, tuple) and p[1] == "n":
+                tpl.append((p[0], case["daydigits"]))
+            elif isinstance(p, tuple) and p[1] == "h":
+                tpl.append((p[0], case["hdigits"]))
+            else:
+                tpl.append(p)
+        return tpl
+
+    @staticmethod
+    def setup(inp, case):
+        from dateparser.parser import _parser
+        from pyvc.harness import build
+
+        st, now = _settings(inp, case, DATE_ORDER="MDY")
+        s, f = build(inp, absolute_formats.template(case))
+        return _parser.parse, (s, st), {}, dict(now=now, f=f)
+
+    @staticmethod
+    def post(case, g, out):
+        f = g["f"]
+        Y, D = f["Y"], f["D"]
+        if "month" in case:
+            mn = case["month"]
+            m = (MONTHS.index(mn) if mn in MONTHS else ABBR.index(mn)) + 1
+            mvalid = True
+        else:
+            m = f["m"]
+            mvalid = And(m >= 1, m <= 12)
+        T = f.get("T", 0)
+        S = f.get("S", 0)
+        us = _frac_us(f["f"], case["fdigits"]) if "f" in f else 0
+        if "I" in f:
+            h12 = f["I"]
+            hvalid = And(h12 >= 1, h12 <= 12)
+            H = Ite(h12 == 12, 0, h12) + (12 if case["ampm"] == "pm" else 0)
+        else:
+            H = f.get("H", 0)
+            hvalid = H <= 23
+        valid = And(Y >= 1, mvalid, D >= 1, D <= dim(Y, m), hvalid, T <= 59, S <= 59)
+        if not out.ok:
+            return {"valid=>parses": Not(valid)}
+        dt, per = out.value
+        return {
+            "valid=>parses": True,
+            "valid=>exactly-the-written-datetime": Implies(valid, same_fields(dt, Y, m, D, H, T, S,
+                                                                              us)),
+            "valid=>period-day": Implies(valid, per == "day"),
+            "valid=>naive": Implies(valid, dt.tzinfo is None),
+        }
+
+
+CONTRACTS += [absolute_formats]
